@@ -86,6 +86,8 @@ STYLES = {
     's2': dict(color='red', alpha=1.0, linewidth=0.5, linestyle='dotted', marker='^', markersize=1),
     's3': dict(color='0.35', alpha=0.6, linestyle='dash-dot', marker='+', markersize=12.5),
     's4': dict(color='#ABCDEF', linestyle='none', linewidth=3, preferred_cmap='viridis'),
+    # boundary values that are falsy in Python (a loader that goes through `value or default` loses them)
+    's5': dict(color='#000000', alpha=0.0, linewidth=0, markersize=0),
 }
 METAS = {
     'none': {},
@@ -1241,7 +1243,7 @@ def style_cases(tier):
     out = []
     for st in sorted(STYLES):
         for me in sorted(METAS):
-            for gst in (sorted(STYLES) if tier == 'thorough' else ['default', 's2']):
+            for gst in (sorted(STYLES) if tier == 'thorough' else ['default', 's2', 's5']):
                 out.append(dict(focus='style-meta', datasets=[['tab', {'style': st, 'meta': me}],
                                                                 ['img', {'style': gst, 'meta': me}]],
                                 groups=[dict(state=['K', 'tab'], style=gst, label='styled %s' % gst),
